@@ -181,6 +181,7 @@ class RegionLifter:
     def __init__(self, prog, region, max_steps=4000, max_product=400000):
         self.prog, self.rg = prog, region
         self.max_product = max_product
+        self.decisions = []              # (id of the ast.If, branch taken) in execution order
         self.steps, self.max_steps = 0, max_steps
         self.depth = 0
 
@@ -232,7 +233,9 @@ class RegionLifter:
             elif isinstance(st, ast.Raise):
                 raise Raised(ast.unparse(st)[:80])
             elif isinstance(st, ast.If):
-                self.block(st.body if self.truth(self.ev(st.test, env, F)) else st.orelse, env, F)
+                taken = self.truth(self.ev(st.test, env, F))
+                self.decisions.append((id(st), taken))
+                self.block(st.body if taken else st.orelse, env, F)
             elif isinstance(st, ast.Assign):
                 v = self.ev(st.value, env, F)
                 for t in st.targets:
@@ -541,6 +544,31 @@ class RegionLifter:
             return self.absval(nz[0])
         return self.sqrt(t)
 
+    def spectral(self, M):
+        """spectral norm of a concrete-shape matrix: an opaque positive symbol named after the
+        canonical form of the entries (equal matrices share it); its witness value is computed
+        by a power iteration on the numeric shadow"""
+        import hashlib
+        rows = [[R(x) for x in r] for r in M]
+        if all(x.is_zero() for r in rows for x in r):
+            return const(0)
+        name = "SPEC_" + hashlib.sha1(repr([[x.key() for x in r] for r in rows]).encode()).hexdigest()[:10]
+        if name not in self.rg.values:
+            Mn = [[self.rg.num(x) for x in r] for r in rows]
+            ncol = len(Mn[0])
+            v = [1.0 / (k + 1.3) for k in range(ncol)]
+            lam = 0.0
+            for _ in range(500):
+                Mv = [sum(r[k] * v[k] for k in range(ncol)) for r in Mn]
+                u = [sum(Mn[i][k] * Mv[i] for i in range(len(Mn))) for k in range(ncol)]
+                nu = math.sqrt(sum(x * x for x in u))
+                if nu == 0:
+                    break
+                v = [x / nu for x in u]
+                lam = nu
+            self.rg.values[name] = math.sqrt(lam)
+        return sym(name)
+
     def maxmin(self, is_max, a, b):
         def f(x, y):
             if isinstance(x, int) and isinstance(y, int):
@@ -776,7 +804,13 @@ class RegionLifter:
                 a = args[0]
                 if isinstance(a, Mat) and self.as_int(kw["axis"]) == 1:
                     return Vec(self.norm2(r) for r in a)
+                if isinstance(a, Mat) and self.as_int(kw["axis"]) == 0:
+                    return Vec(self.norm2(Vec(c)) for c in zip(*a))
                 raise Unsupported("norm axis")
+            if isinstance(args[0], Mat):
+                if o is None:
+                    return self.norm2(Vec(x for r in args[0] for x in r))      # Frobenius
+                return self.spectral(args[0])
             return self.norm2(args[0])
         if name == "np.any":
             return self.any(args[0])
